@@ -15,6 +15,6 @@ PY
 rc=$?
 if [ $rc -eq 0 ]; then
   (cd /verif && BASELINE_SHOW=2 tools/baseline.py $WT)
-  for id in $ID; do (cd /verif && VERIF_REPO=$WT ./run_check.py $id --tier ${TIER:-quick} 2>&1 | grep -E "VIOLATION|signature|INFRA|tier=" | head -${LINES_MAX:-8}); done
+  for id in $ID; do (cd /verif && VERIF_EVIDENCE_DIR=$WT/.verif_evidence VERIF_OUT_DIR=$WT/.verif_out VERIF_REPO=$WT ./run_check.py $id --tier ${TIER:-quick} 2>&1 | grep -E "VIOLATION|signature|INFRA|tier=" | head -${LINES_MAX:-8}); done
 fi
 git -C /repo worktree remove --force $WT
